@@ -25,7 +25,7 @@ VARIABLES l, mach, cfg, steps, ph
 vars == <<l, mach, cfg, steps, ph>>
 
 NoMachine == [m |-> [arms |-> <<>>], args |-> <<>>, maxsteps |-> 0]
-NoCfg == [state |-> "", pay |-> <<>>]
+NoCfg == [state |-> "", pay |-> <<>>, inp |-> <<>>]
 Phase(p, a, g) == [p |-> p, arm |-> a, g |-> g]
 M == mach.m
 Arms == M.arms
